@@ -16,6 +16,7 @@ E2 (bounded-exhaustive shape enumeration).  Parts:
 `dot` of a rectangular 2- or 3-level matrix runs in a forked child process (the Cython kernels write with
 bounds checks off); death by signal is a problem of the case.
 """
+import gc
 import itertools
 import json
 import os
@@ -35,7 +36,7 @@ LEVEL = "model_checking"
 # API the property names; checked on square blocks only unless this is switched on.
 CHECK_SEQBIDX_RECT = False
 
-BATCH = 32            # structures evaluated per sandbox child
+BATCH = 64            # structures evaluated per sandbox child
 
 _CALLS = [0]          # implementation calls compared with the reference (per process)
 
@@ -1163,30 +1164,46 @@ def run(ctx):
                 out.add_violation(key, "%s: %s" % (_short(case), msg), case)
         return nviol
 
-    # simplest parts first
-    n = collect(par.pmap(_worker, ixc), "index")
+    # two parallel maps: everything that is memory-safe in-process, and the batches for the sandbox children.
+    # gc.freeze keeps the workers' garbage collector away from the (shared, copy-on-write) case lists.
+    plain = ixc + kvc + kpc + [c for c in mlc if not needs_sandbox(c)]
+    boxed = [c for c in mlc if needs_sandbox(c)]
+    batches = [boxed[i:i + BATCH] for i in range(0, len(boxed), BATCH)]
+    gc.collect()
+    gc.freeze()
+    try:
+        res_plain = par.pmap(_worker, plain, chunk=max(1, min(48, len(plain) // 256 or 1)))
+        ctx.log("%d cases evaluated in-process" % len(plain))
+        res_boxed = [r for rs in par.pmap(_batch_worker, batches, chunk=1, min_parallel=2) for r in rs]
+        ctx.log("%d rectangular 2-/3-level structures evaluated in %d sandbox batches" % (len(boxed), len(batches)))
+    finally:
+        gc.unfreeze()
+    # results come back in case order: match them to the enumeration by position
+    it_plain, it_boxed = iter(res_plain), iter(res_boxed)
+
+    def results_for(cases):
+        return [next(it_boxed) if needs_sandbox(c) else next(it_plain) for c in cases]
+
+    n = collect(results_for(ixc), "index")
     ctx.log("index maps: %d cases, %d problems" % (len(ixc), n))
     out.nontrivial_extra += len(ixc)
-    n = collect(par.pmap(_worker, kvc), "kvs")
+    n = collect(results_for(kvc), "kvs")
     ctx.log("from_kvs: %d cases, %d problems" % (len(kvc), n))
     for c in kvc:
         if any(a["mesh"] != b["mesh"] or a["p"] != b["p"] or max(a["mults"] + b["mults"] + [1]) > 1
                for a, b in zip(c["rows"], c["cols"])):
             out.nontrivial_extra += 1
-    n = collect(par.pmap(_worker, kpc), "kron_partial")
+    n = collect(results_for(kpc), "kron_partial")
     ctx.log("kron_partial: %d cases, %d problems" % (len(kpc), n))
     out.nontrivial_extra += len(kpc)
     start = 0
     for name, depth, tuples in groups:
         sub = mlc[start:start + len(tuples)]
         start += len(tuples)
-        plain = [c for c in sub if not needs_sandbox(c)]
-        boxed = [c for c in sub if needs_sandbox(c)]
-        n = collect(par.pmap(_worker, plain), "ml")
-        batches = [boxed[i:i + BATCH] for i in range(0, len(boxed), BATCH)]
-        n += collect([r for rs in par.pmap(_batch_worker, batches, chunk=1, min_parallel=2) for r in rs], "ml")
-        out.part("ml", sandboxed=len(boxed))
-        ctx.log("ml %-36s %6d structures (%d in sandbox children), %d problems" % (name, len(sub), len(boxed), n))
+        nb = sum(1 for c in sub if needs_sandbox(c))
+        n = collect(results_for(sub), "ml")
+        out.part("ml", sandboxed=nb)
+        ctx.log("ml %-36s %6d structures (%d in sandbox children), %d problems" % (name, len(sub), nb, n))
     out.traces = out.states
     for c in (mlc[0], mlc[len(mlc) // 3], mlc[-1], kvc[len(kvc) // 2], kpc[len(kpc) // 2], ixc[len(ixc) // 2]):
         out.sample({k: v for k, v in c.items()}, limit=6)
